@@ -555,10 +555,17 @@ _dispatch_event_merge_hangup(dispatch_unote_t du)
 {
 	// consumed by dux_merge_evt()
 	_dispatch_retain_unote_owner(du);
-	dispatch_unote_state_t du_state = _dispatch_unote_state(du);
-	du_state |= DU_STATE_NEEDS_DELETE;
-	du_state &= ~DU_STATE_ARMED;
-	_dispatch_unote_state_set(du, du_state);
+	// Unregister the unote right here, on the event loop thread that owns the
+	// muxnote lists. Once its owner is told about the hangup it runs
+	// concurrently with this loop: if the unregistration were left to it
+	// (DU_STATE_NEEDS_DELETE) it could unlink the unote from, and free, the
+	// muxnote that _dispatch_event_merge_fd() is still walking, and the
+	// unregistration could be finalized twice.
+	dispatch_unote_linkage_t dul = _dispatch_unote_get_linkage(du);
+	LIST_REMOVE(dul, du_link);
+	_LIST_TRASH_ENTRY(dul, du_link);
+	dul->du_muxnote = NULL;
+	_dispatch_unote_state_set(du, DU_STATE_UNREGISTERED);
 	uintptr_t data = 0;  // EOF
 	os_atomic_store2o(du._dr, ds_pending_data, ~data, relaxed);
 	dux_merge_evt(du._du, EV_DELETE|EV_DISPATCH, data, 0);
@@ -608,7 +615,10 @@ _dispatch_event_merge_fd(dispatch_muxnote_t dmn, uint32_t events)
 			dispatch_unote_t du = _dispatch_unote_linkage_get_unote(dul);
 			_dispatch_event_merge_hangup(du);
 		}
+		// every unote has been detached: the muxnote goes away with them
 		epoll_ctl(_dispatch_epfd, EPOLL_CTL_DEL, dmn->dmn_fd, NULL);
+		LIST_REMOVE(dmn, dmn_list);
+		_dispatch_muxnote_dispose(dmn);
 		return;
 	}
 
